@@ -328,8 +328,13 @@ class Factory:
                 pvp[c.Identifier] = numpy.ones((c.NumVectors,), dtype=dt)
                 sig[c.Identifier] = numpy.zeros((c.NumVectors, c.NumSamples), dtype='complex64')
             p = self.new_path('cphd')
-            with CPHDWriter1(p, m, check_existence=False) as w:
+            with CPHDWriter1(p, m, check_existence=False, check_older_version=r.get('older', False)) as w:
                 w.write_file(pvp, sig, {})
+            if r.get('older'):
+                with open(p, 'rb') as f:
+                    first = f.readline()
+                if not first.startswith(b'CPHD/1.0'):
+                    raise Infra(f'harness: expected a CPHD/1.0.x file from check_older_version=True, header says {first!r}')
             return p
         if k == 'crsd':
             from sarpy.io.received.crsd import CRSDWriter1
@@ -636,6 +641,9 @@ def written_recipes(rng, tier):
     out.append({'kind': 'sidd', 'label': 'SIDD', 'version': 3, 'pixel': 'MONO8I', 'rows': [7], 'nsicd': 1, 'extra': [], 'row_limit': None, 'graphics': 1})
     for src in ['1.0.1-monostatic', '1.0.1-bistatic', '1.1.0-monostatic', '1.1.0-bistatic', '1.1.0-monostatic-minimal']:
         out.append({'kind': 'cphd', 'label': 'CPHD', 'src': src, 'nv': rng.randint(1, 6), 'ns': rng.randint(1, 6)})
+        if src.startswith('1.0.1'):
+            # the oldest version that can hold the metadata: the file type header then says CPHD/1.0.1
+            out.append({'kind': 'cphd', 'label': 'CPHD', 'src': src, 'nv': rng.randint(1, 6), 'ns': rng.randint(1, 6), 'older': True})
     for nchan in (1, 2, 3):
         out.append({'kind': 'crsd', 'label': 'CRSD', 'nchan': nchan, 'nv': rng.randint(1, 6), 'ns': rng.randint(1, 6)})
     out.append({'kind': 'sio', 'label': 'SIO'})
